@@ -219,6 +219,10 @@ def mappedValue : TraitType → Val → Option Val
     match dictFind keys w with
     | .ok (some i) => vals[i]?
     | _ => none
+  | .mapH keys vals, w =>
+    match dictFind keys w with
+    | .ok (some i) => vals[i]?
+    | _ => none
   | .prefixMap keys vals, w =>
     match strOf w with
     | some s => (keys.findIdx? (· == s)).bind (vals[·]?)
